@@ -168,14 +168,12 @@ StreamsManagerBase<MAX_STREAMS> {
     /// Signals all `Stream`s to end as soon as possible (making them reach their "out of elements" phase).\
     /// Any parked streams are awaken, so they may end as well.
     pub fn cancel_all_streams(&self) {
-        let used_streams = unsafe { &* self.used_streams.get() };
-        for stream_id in used_streams.iter() {
+        // every possible stream id is signaled: walking `used_streams` would skip a stream whenever that list
+        // gets rebuilt (by a concurrent stream drop or creation) while we are iterating over it
+        for stream_id in 0..MAX_STREAMS as u32 {
             #[cfg(feature = "verif")]
             crate::verif::yield_point_at("sm.used.read", self as *const Self as usize);
-            if *stream_id == u32::MAX {
-                break
-            }
-            self.cancel_stream(*stream_id);
+            self.cancel_stream(stream_id);
         }
     }
 
